@@ -98,6 +98,29 @@ reg("C03", "model_checking",
     "earlier dependency imports; offsets <= 1e5; QTY/SYS/vector counters advanced with next_id.",
     "DESIGN.md 3/C03")
 
+reg("C07", "exploration",
+    "exhaustive enumeration of ordered unit pairs / triples and a temperature grid against an own "
+    "SI-factor table",
+    "All ordered pairs of a ~130-spelling unit table (base, derived, prefixed, composite) x 5 "
+    "magnitudes are converted (or must be refused), every unit is converted to its SI unit, "
+    "round trips and all ordered triples inside each dimension class are composed, "
+    "evaluate_expression is run over expression shapes x quantity pairs, and the Celsius/kelvin "
+    "helpers over a temperature grid including absolute zero. Conversion is a ratio of two table "
+    "entries after a dimension check, so pairs and triples exhaust its behaviour on the table.",
+    "SI factors in vp/values.py typed from the SI brochure; sympy's own unit data errors "
+    "(nautical mile, astronomical unit) are out of scope.", "DESIGN.md 3/C07")
+
+reg("C08", "exploration",
+    "exhaustive grid straddling the tolerance boundary, judged by an interval reference "
+    "(must-pass / must-fail / don't-care)",
+    "The full product of values, tolerance modes, offset/tolerance ratios (0, 0.5, 1-1e-6, 1+1e-6, "
+    "2, 10), real/imaginary part, operand order, unit spelling and entry point (approx_equal_numbers, "
+    "approx_equal_quantities, assert_equal, assert_equal_vectors) is run; plus equivalent and "
+    "inequivalent dimension pairs, bare numbers with and without dimension, vectors with one "
+    "deviating component and unequal lengths.",
+    "Reference bands as worded in the property; the band between rel*min and rel*max is left open.",
+    "DESIGN.md 3/C08")
+
 
 def build() -> dict:
     props = [json.loads(l)["id"] for l in open(os.path.join(ROOT, "properties.jsonl"))]
